@@ -31,6 +31,9 @@ pub enum End {
     AppClosesTargetLingers,
     /// target closes; the application reads end-of-stream but keeps its own socket open
     TargetClosesAppLingers,
+    /// one-shot upload: handshake, a large write, close() at once, no warm-up; the (possibly slow) target must still read
+    /// everything and then end-of-stream
+    ColdUploadThenClose,
     /// nobody listens on the requested port
     TargetRefused,
     /// the requested name does not resolve
@@ -38,7 +41,7 @@ pub enum End {
 }
 
 impl End {
-    pub const ALL: [End; 11] = [
+    pub const ALL: [End; 12] = [
         End::AppClosesClean,
         End::AppClosesInFlight,
         End::TargetClosesClean,
@@ -48,6 +51,7 @@ impl End {
         End::LinkCut,
         End::AppClosesTargetLingers,
         End::TargetClosesAppLingers,
+        End::ColdUploadThenClose,
         End::TargetRefused,
         End::TargetUnresolvable,
     ];
@@ -92,6 +96,11 @@ fn run_one(client_port: u16, f: &FlowEnd, tag: u64, tap: Option<&Tap>, keep: &st
             };
             let (rep, _) = run_flow(client_port, &sc, tag);
             (rep.fail, true)
+        }
+        End::ColdUploadThenClose => {
+            let n = (f.up.max(20_000)).saturating_mul(8).min(1_400_000);
+            let r = crate::sys::flow::cold_upload(client_port, f.hs, n, tag, (f.down % 400) as u16);
+            (r.err(), true)
         }
         End::TargetRefused | End::TargetUnresolvable => {
             // the application asks for a target that cannot be reached; it must observe end-of-stream, not a hang
@@ -466,7 +475,7 @@ pub fn run(ctx: &mut PropCtx) {
         "clean closes must deliver everything the closer wrote before closing (strict); abortive endings only require that the other side observes end-of-stream or a reset".into(),
         "'promptly' = within 12 s for an event that takes milliseconds, confirmed on two more fresh clusters".into(),
         "the idle baseline is the smallest descriptor count seen after a warm-up flow has ended; after the batch the counts are polled for up to 20 s".into(),
-        "endings: application closes (clean / with data in flight towards it / while the target keeps its own socket open afterwards), target closes (same three), application resets, target resets, link cut by the tap (stream transports), target refuses, target name does not resolve".into(),
+        "endings: application closes (clean / with data in flight towards it / while the target keeps its own socket open afterwards), target closes (same three), one-shot upload closed at once, application resets, target resets, link cut by the tap (stream transports), target refuses, target name does not resolve".into(),
     ];
     // every ending on every transport, one protocol rotating with the seed, sequentially: exhaustive over (transport x ending)
     let protos = [Proto::Trojan, Proto::Vmess(3), Proto::Ss22(crate::refimpl::ss2022::C22::Aes128), Proto::SsLegacy(crate::refimpl::ss::Legacy::ChaCha20), Proto::Vmess(4), Proto::Ss22(crate::refimpl::ss2022::C22::ChaCha20)];
